@@ -170,7 +170,10 @@ pub fn gen_script(c: &mut Cur, p: &Profile, flavor: Flavor, nleaves_hint: usize)
         script.truncate(at);
         script.push(Step::Never);
     }
-    LeafSpec { script, always: false }
+    // a stream that knows how many items it has left says so (adapters may
+    // consult size_hint; it must never change what they do)
+    let hint = flavor == Flavor::S && c.coin(80);
+    LeafSpec { script, always: false, hint }
 }
 
 fn inner_families(want: Flavor) -> Vec<(Family, u32)> {
@@ -237,7 +240,10 @@ pub fn gen_comb(c: &mut Cur, p: &Profile, fam: Family, depth: usize, nests_left:
                 Container::Tuple => TUPLE_LENS[c.choice(TUPLE_LENS.len())],
                 Container::Array => ARRAY_CHOICES[c.choice(ARRAY_CHOICES.len())],
                 _ => {
-                    if p.big_vec && depth == 0 && c.coin(40) {
+                    // boundary lengths of the internal tables (inline capacity 23,
+                    // bitset blocks of 64): often in the thorough tier, now and
+                    // then in the quick tier too
+                    if depth == 0 && c.coin(if p.big_vec { 40 } else { 9 }) {
                         BIG_LENS[c.choice(BIG_LENS.len())]
                     } else {
                         VEC_LENS[c.choice(VEC_LENS.len())]
@@ -315,7 +321,7 @@ pub fn gen_case(bytes: &[u8], p: &Profile) -> Case {
         for _ in 0..how_many {
             let d = c.choice(n);
             if let Some(ch) = root.children.get_mut(d) {
-                *ch = ChildSpec::Leaf(LeafSpec { script: vec![], always: true });
+                *ch = ChildSpec::Leaf(LeafSpec { script: vec![], always: true, hint: false });
             }
         }
         // mostly a few rounds; sometimes a long run (rotation state that only
